@@ -39,7 +39,9 @@ CLAIMED = {
             "plus longer opcode shapes over {install at t, install after delta, suspend, resume, re-install, advance} with symbolic tasks and "
             "symbolic integer instants 0..8 is compared after every advance with the reference (never early, once per installation, order "
             "among equal times, not after suspend, re-install moves); recurring tasks with symbolic interval/offset/instants fire once per "
-            "slot; deferred batches with every subset of raising / re-deferring members run each function once in order.",
+            "slot, also when installed or re-installed between 100 ms and 10 us before a slot; tasks 0.4 ms apart never fire early; deferred "
+            "batches with every subset of raising / re-deferring members, every kind of callable (function, lambda, bound method, partial, "
+            "callable instance) and repeated equal (function, arguments) pairs run each call once in order.",
             "Trusted: as C07 plus vf/world.py (asyncore.loop -> clock advance, trigger stand-in); instants are integers or eighths of a second "
             "so real arithmetic equals binary64; IEEE rounding of the recurring-slot formula for non-representable intervals is not claimed."),
     "C02": ("6/C02", SX + "; differential against a clause 20.2.1 reference (header encoder, liberal one-tag parser/tokenizer, bracket matcher)",
@@ -65,7 +67,7 @@ CLAIMED = {
             "transaction, timer, IOCB queue entry or further frame afterwards. Exhaustive inside the per-instance shape bounds "
             "(payload lengths, window sizes, retry counts, one fault in quick / two in thorough); nothing outside. One transition of a real "
             "client / server transaction state machine from a symbolic state under an inductive invariant; IOCB queues and chains of "
-            "requests submitted from completion callbacks with symbolic fates.",
+            "requests submitted from completion callbacks with symbolic fates. The application giving up on a queued / active / finished IOCB (abort or timeout), a group of IOCBs, and transaction timers sharing the scheduler with unrelated far and near timers.",
             "Trusted: CrossHair symbolic models, z3, the virtual clock/loop stubs of vf/world.py (zero processing time), the fault LAN of "
             "vf/netlab.py; max APDU 50/128 only; threads (IOCB.wait) not modelled."),
     "C05": ("6/C05", SCN + "; wire oracle through an independent clause 20.1 header decoder",
@@ -84,7 +86,7 @@ CLAIMED = {
             "255 minus router hops; cold and warm caches; stations that do not know their network number. A cyclic topology shows "
             "hop-count termination for symbolic initial counts. One forwarding step of a three-port router from chosen cache states with "
             "a symbolic NPDU (destination kind/network/MAC, optional SADR, hop count 0..255, arrival port) against the clause 6.5 "
-            "forwarding rule; bursts of three packets toward an undiscovered network.",
+            "forwarding rule; bursts of three packets toward an undiscovered network. Stations that learn their network number from announcements or by asking; traffic between the two ends of a four-network line with every cache cold; a station addressing its own network by number.",
             "Trusted: as C04. Topologies other than the instantiated ones are outside; routing-protocol chatter in cyclic topologies is not part of the claim."),
     "C07": ("6/C07",
             SX + "; differential against a clause-20.1 reference layout",
@@ -103,7 +105,7 @@ CLAIMED = {
             "Trusted: as C07 plus vf/ref/C08_npci.py."),
     "C09": ("6/C09", SX + "; differential against an Annex J reference layout and parser; octets observed below the real AnnexJCodec",
             "Each of the 12 BVLL functions with symbolic parameters (codes, TTL, remaining time, all six octets of every address, 32-bit masks, "
-            "tables of 0..2 (4, 8, 40) entries, NPDUs of 0..6 (16) symbolic octets and boundary lengths to 1497) pushed through the real "
+            "tables of 0..2 (4, 8, 40) entries plus one table of 12 concrete entries with arbitrary masks, NPDUs of 0..6 (16) symbolic octets and boundary lengths to 1497) pushed through the real "
             "AnnexJCodec: first octet 0x81, function code, length field = octets emitted, body = reference, decode restores the parameters; "
             "objects whose declared length disagrees with their content never emit a frame with a false header; every datagram up to 26 (104) "
             "octets per function code is accepted with the reference reading and a re-encode fixed point or refused, and every datagram "
@@ -125,13 +127,13 @@ CLAIMED = {
             "Invoke-ID allocation from a symbolic cursor (wrap-around without 256 requests) with symbolic peer choice and application-chosen "
             "IDs; one inbound reply of each kind with symbolic source and symbolic invoke ID against three live transactions with a forced "
             "cross-peer ID collision: only the transaction with equal (peer, ID) completes, every other ends by its own timeout, duplicates "
-            "are ignored; retransmitted requests (at once or a second apart) are indicated once and equal IDs from two peers are answered separately.",
+            "are ignored; retransmitted requests (at once or a second apart) are indicated once and equal IDs from two peers are answered separately. The same MAC and invoke ID live on the local and on a remote network (replies relayed by a router); two stacks that are client and server of one another at once, one direction segmented.",
             "Trusted: as C04. At most 6 outstanding requests / 3 peers; exhaustion of all 256 IDs toward one peer is outside."),
     "C12": ("6/C12", SCN + "; frame lengths and headers read with an independent decoder; expected outcome from reference arithmetic on clause 20.1 header sizes",
             "For capability pairs (max APDU, segmentation support, max segments, I-Am known or not) with symbolic proposed windows 1..127 and "
             "symbolic payload lengths around the boundaries: no APDU on the LAN exceeds what its receiver announced, responses are segmented "
             "only when accepted and within max-segments, requests only toward peers that can receive segments, windows stay in 1..127 and "
-            "within the proposal, and the outcome (ack or abort) is the one the limits dictate.",
+            "within the proposal, and the outcome (ack or abort) is the one the limits dictate. Peers that announced themselves twice (the later I-Am counts), clients whose earlier I-Am promised more than the request being answered, a peer that asks first; a bare station granting a symbolic window with every SegmentAck: never more segments outstanding than granted.",
             "Trusted: as C04; the application feeds I-Am announcements into DeviceInfoCache.iam_device_info (bacpypes leaves that to the application)."),
     "C15": ("6/C15", SCN + "; reply octets and object snapshots compared with a reference property store and reference encoders written from clauses 15.5/15.7/15.9/21",
             "A device stack with ReadProperty/WriteProperty/ReadPropertyMultiple services holding scalar, array and list objects, and a "
@@ -162,9 +164,10 @@ CLAIMED = {
             "command presentValue, all 16 slots, relinquish default and the encoded array equal the reference; refused writes change nothing; "
             "every sequence of length 3 over 4 priorities (thorough: 4-5 on selected classes, 100-command sequences); element writes carrying "
             "a PriorityValue are refused cleanly; binary objects with symbolic and independent minimum on/off times 0..10 hold a new state "
-            "at priority 6 for exactly the right minimum on the virtual clock.",
+            "at priority 6 for exactly the right minimum on the virtual clock; WriteProperty requests on the wire (Null with and without priority, the "
+            "library's own default array); two objects of one class stay independent.",
             "Trusted: as C14 plus vf/ref/C17_prio.py; attribute assignment obj.presentValue = v (the library's internal direct write) and "
-            "direct=True are outside; over-the-wire commands are covered at object level through the same WriteProperty entry point."),
+            "direct=True are outside."),
     "C18": ("6/C18", SX + "; differential against integer arithmetic on the denoted numbers (reference cross-checked with the ipaddress module)",
             "Every accepted notation as a fixed shape with symbolic digits / hex glyphs / octets: stations, net:station, net:*, *, *:*, hex and "
             "X'' strings with optional network, ethernet form, dotted IPv4 with all 33 mask lengths and ports 0..65535, tuples, raw octets, the "
